@@ -523,6 +523,13 @@ def safe(f):
     except Exception as e:
         if type(e).__name__ in ("TimeoutError", "CancelledError"):
             hung.append(1)          # a call that does not come back: stop after recording it (each would cost the full deadline)
+            try:
+                import inspect as _insp
+                src_ = _insp.getsource(f).strip()[:200]
+            except Exception:
+                src_ = "a remote operation"
+            # recorded on its own, whether or not the caller records the outcome: a caller left waiting is a property failure
+            results.append({"form": "hang", "text": "no answer within 20 s: " + src_, "remote": "EXC-HANG", "local": "(returns)"})
         return ("EXC", type(e).__name__)
 
 # deterministic prelude: values that are ==/hash-equal in Python but of different Klong kinds, through every
@@ -540,37 +547,47 @@ for u_ in range(6):
     plan.insert(0, ('sym', None))
 for u_ in range(4):
     plan.insert(0, ('proxyredef', None)); plan.insert(0, ('pycall', None))
-# ---- deterministic blocks added after the third round of seeded changes
-# (a) integer arrays as arguments / stored values followed by server-side element-wise arithmetic (the values must keep
-#     their integer width on the wire), (b) a proxy applied inside a client-side function whose frame binds MORE of
-#     x,y,z than the proxy takes, (c) two clients taking turns: the connection handle .cli.h is per request
-for arr_ in ['[100 100]', '[100 -200 300]', '[1 2 3]', '[127 128 255 256]', '[30000 40000]', '[2147483647 1]', '[0 0 0]', '[-128 127]']:
-    r = safe(lambda: rcall('sq', arr_)); l = safe(lambda: twin('sq(%%s)' %% arr_)); record('intarr', 'sq(%%s)' %% arr_, r, l)
-    r = safe(lambda: rcall('mulk', arr_)); l = safe(lambda: twin('mulk(%%s)' %% arr_)); record('intarr', 'mulk(%%s)' %% arr_, r, l)
-    r = safe(lambda: rcall('dot', arr_, arr_)); l = safe(lambda: twin('dot(%%s;%%s)' %% (arr_, arr_))); record('intarr', 'dot(%%s;%%s)' %% (arr_, arr_), r, l)
-    r = safe(lambda: on_loop(client, cloops, 'q::cli(:sq);q(%%s)' %% arr_)); l = safe(lambda: twin('sq(%%s)' %% arr_)); record('intarr', 'proxy sq(%%s)' %% arr_, r, l)
-    def dsetarr_():
-        pr = np.empty(2, dtype=object); pr[0] = KGSym('va'); pr[1] = on_loop(client, cloops, arr_)
-        client['pair'] = pr; on_loop(client, cloops, 'dcli,pair')
-    safe(dsetarr_); twin[KGSym('va')] = on_loop(client, cloops, arr_)
-    r = safe(lambda: on_loop(client, cloops, 'cli("va*va")')); l = safe(lambda: twin('va*va')); record('intarr', 'va::%%s; va*va' %% arr_, r, l)
-for body_, args_, tw_ in [('{q(x)+y}', '(3;4)', '{sq(x)+y}(3;4)'), ('{q(x)+y+z}', '(3;4;5)', '{sq(x)+y+z}(3;4;5)'),
-                          ('{(q(y))+x}', '(3;4)', '{(sq(y))+x}(3;4)'), ('{n0()+x}', '(7)', '{nil()+x}(7)'),
-                          ('{q2(x;y)+z}', '(1;2;3)', '{add(x;y)+z}(1;2;3)'), ("{q(x)}'", '[1 2 3]', "{sq(x)}'[1 2 3]")]:
-    t_ = 'q::cli(:sq);q2::cli(:add);n0::cli(:nil);%%s%%s' %% (body_, args_)
-    r = safe(lambda: on_loop(client, cloops, t_)); l = safe(lambda: twin(tw_)); record('proxyscope', t_, r, l)
-if mode == 'tcp':
-    a1 = safe(lambda: on_loop(client, cloops, 'cli(,:whoami)'))
-    safe(lambda: on_loop(client, cloops, 'cli2::.cli(%%d)' %% port))
-    a2 = safe(lambda: on_loop(client, cloops, 'cli2(,:whoami)'))
-    a1b = safe(lambda: on_loop(client, cloops, 'cli(,:whoami)'))
-    a2b = safe(lambda: on_loop(client, cloops, 'cli2(,:whoami)'))
-    # the handle a request runs with is the handle of ITS connection: stable per client, different between clients
-    record('twoclients', 'who() stable for client 1', a1b, a1)
-    record('twoclients', 'who() stable for client 2', a2b, a2)
-    record('twoclients', 'who() differs between clients', 0 if (isinstance(a1, str) and isinstance(a2, str) and a1 != a2) else [a1, a2], 0)
-    # and it is not left behind on the server after the call
-    r = safe(lambda: on_loop(server, sloops, '.cli.h')); l = safe(lambda: twin('.cli.h')); record('twoclients', 'server-side .cli.h outside a call', r, l)
+def deterministic_blocks():
+    # ---- deterministic blocks added after the third round of seeded changes
+    # (a) integer arrays as arguments / stored values followed by server-side element-wise arithmetic (the values must keep
+    #     their integer width on the wire), (b) a proxy applied inside a client-side function whose frame binds MORE of
+    #     x,y,z than the proxy takes, (c) two clients taking turns: the connection handle .cli.h is per request
+    for arr_ in ['[100 100]', '[100 -200 300]', '[1 2 3]', '[127 128 255 256]', '[30000 40000]', '[2147483647 1]', '[0 0 0]', '[-128 127]']:
+        if hung: return
+        r = safe(lambda: rcall('sq', arr_)); l = safe(lambda: twin('sq(%%s)' %% arr_)); record('intarr', 'sq(%%s)' %% arr_, r, l)
+        r = safe(lambda: rcall('mulk', arr_)); l = safe(lambda: twin('mulk(%%s)' %% arr_)); record('intarr', 'mulk(%%s)' %% arr_, r, l)
+        r = safe(lambda: rcall('dot', arr_, arr_)); l = safe(lambda: twin('dot(%%s;%%s)' %% (arr_, arr_))); record('intarr', 'dot(%%s;%%s)' %% (arr_, arr_), r, l)
+        r = safe(lambda: on_loop(client, cloops, 'q::cli(:sq);q(%%s)' %% arr_)); l = safe(lambda: twin('sq(%%s)' %% arr_)); record('intarr', 'proxy sq(%%s)' %% arr_, r, l)
+        def dsetarr_():
+            pr = np.empty(2, dtype=object); pr[0] = KGSym('va'); pr[1] = on_loop(client, cloops, arr_)
+            client['pair'] = pr; on_loop(client, cloops, 'dcli,pair')
+        safe(dsetarr_); twin[KGSym('va')] = on_loop(client, cloops, arr_)
+        r = safe(lambda: on_loop(client, cloops, 'cli("va*va")')); l = safe(lambda: twin('va*va')); record('intarr', 'va::%%s; va*va' %% arr_, r, l)
+    for body_, args_, tw_ in [('{q(x)+y}', '(3;4)', '{sq(x)+y}(3;4)'), ('{q(x)+y+z}', '(3;4;5)', '{sq(x)+y+z}(3;4;5)'),
+                              ('{(q(y))+x}', '(3;4)', '{(sq(y))+x}(3;4)'), ('{n0()+x}', '(7)', '{nil()+x}(7)'),
+                              ('{q2(x;y)+z}', '(1;2;3)', '{add(x;y)+z}(1;2;3)'), ("{q(x)}'", '[1 2 3]', "{sq(x)}'[1 2 3]")]:
+        if hung: return
+        t_ = 'q::cli(:sq);q2::cli(:add);n0::cli(:nil);%%s%%s' %% (body_, args_)
+        r = safe(lambda: on_loop(client, cloops, t_)); l = safe(lambda: twin(tw_)); record('proxyscope', t_, r, l)
+    if hung: return
+    if mode == 'tcp':
+        a1 = safe(lambda: on_loop(client, cloops, 'cli(,:whoami)'))
+        safe(lambda: on_loop(client, cloops, 'cli2::.cli(%%d)' %% port))
+        a2 = safe(lambda: on_loop(client, cloops, 'cli2(,:whoami)'))
+        a1b = safe(lambda: on_loop(client, cloops, 'cli(,:whoami)'))
+        a2b = safe(lambda: on_loop(client, cloops, 'cli2(,:whoami)'))
+        # the handle a request runs with is the handle of ITS connection: stable per client, different between clients
+        record('twoclients', 'who() stable for client 1', a1b, a1)
+        record('twoclients', 'who() stable for client 2', a2b, a2)
+        record('twoclients', 'who() differs between clients', 0 if (isinstance(a1, str) and isinstance(a2, str) and a1 != a2) else [a1, a2], 0)
+        # and it is not left behind on the server after the call
+        r = safe(lambda: on_loop(server, sloops, '.cli.h')); l = safe(lambda: twin('.cli.h')); record('twoclients', 'server-side .cli.h outside a call', r, l)
+
+try:
+    deterministic_blocks()
+except Exception as e_:
+    # a call that never comes back blocks the client's klong loop for good: record and stop (the hung call was recorded by safe())
+    hung.append(1)
 for form, fixed_lit in plan:
     if hung:
         break
